@@ -234,6 +234,17 @@ func (x *Exec) RegisterStdModels() {
 		return S(App("str.suffixof", SBool, e.toTerm(a[1]), e.toTerm(a[0])))
 	}
 
+	// unboxed(x): the struct value boxed in interface value x by this path
+	x.SpecFuncs["unboxed"] = func(e *Env, a []Value) Value {
+		t := e.toTerm(a[0])
+		if t.Op == "box" && len(t.Args) == 2 && t.Args[1].IsAtom() {
+			if b, ok := e.S.Boxes[t.Args[1].Op]; ok {
+				return b
+			}
+		}
+		evalErr("unboxed: %s is not a value boxed on this path", t)
+		return nil
+	}
 	// sliceof(x): the slice boxed in interface value x
 	x.SpecFuncs["sliceof"] = func(e *Env, a []Value) Value {
 		t := e.toTerm(a[0])
